@@ -195,6 +195,9 @@ pub fn check_frame(sim: &mut Sim, ci: usize) -> Result<(), Fail> {
         }
     };
     let map = cw.resource::<ServerEntityMap>();
+    for (&se, &ce) in map.to_client().iter() {
+        sim.hist_map[ci].insert(ce, se);
+    }
     // pre-mapped entities that are not (yet) visible to this client are allowed extras
     let mut extras = 0;
     for se in &sim.premapped[ci] {
@@ -257,7 +260,7 @@ pub fn check_frame(sim: &mut Sim, ci: usize) -> Result<(), Fail> {
         if sim.or.structure && !cent.contains::<Replicated>() {
             return Err(Fail::new("C03.marker", format!("client {ci} at {u}: {se} lacks Replicated")));
         }
-        let have = Sim::comps_of(cw, ce, Some(map.to_server()));
+        let have = Sim::comps_of_hist(cw, ce, Some(map.to_server()), Some(&sim.hist_map[ci]));
         let mut have_set: BTreeSet<_> = have.keys().copied().collect();
         let mut exp_set = exp.clone();
         if !sim.cfg.periodic {
@@ -287,6 +290,16 @@ pub fn check_frame(sim: &mut Sim, ci: usize) -> Result<(), Fail> {
             return Err(Fail::new("C02.unknown_tick", format!("client {ci}: {se} confirmed at tick {t} at which it was not replicated")));
         };
         for k in ["A", "B", "C", "S", "R", "ChildOf"] {
+            if (k == "R" || k == "ChildOf") && have.get(k) == Some(&u64::MAX) {
+                // The reference points at a client entity the harness never saw mapped (it came and went within one
+                // client frame). That is the tick-t value if the server's target at tick t is an entity this client has
+                // meanwhile been told to drop.
+                if let Some(&bits) = vals.get(k) {
+                    if !expected.keys().any(|e| e.to_bits() == bits) {
+                        continue;
+                    }
+                }
+            }
             if have.get(k) != vals.get(k) {
                 return Err(Fail::new(
                     "C02.value",
